@@ -155,7 +155,7 @@ class HistGen:
         cid = self.new_id()
         form = r.choice(["pairs", "pairs", "tuplepairs", "listpairs",
                          "mapping", "kwargs", "omd", "copyctor",
-                         "iterpairs", "itemsobj"])
+                         "iterpairs", "itemsobj", "mixed"])
         cls = r.choice(self.classes)
         if form == "copyctor":
             if not self.m.reg:
@@ -219,12 +219,13 @@ class HistGen:
             if x < 0.6:
                 return ["extend", cid, "twoargs", 0]
         form = r.choice(["pairs", "tuplepairs", "listpairs", "mapping",
-                         "kwargs", "omd", "iterpairs", "itemsobj"])
+                         "kwargs", "omd", "iterpairs", "itemsobj",
+                         "mixed"])
         return ["extend", cid, form, self.pairs(cid, 3)]
 
     def g_update(self, cid, mc, fail):
         form = self.rng.choice(["pairs", "tuplepairs", "listpairs",
-                                "mapping", "kwargs", "iterpairs"])
+                                "mapping", "kwargs", "iterpairs", "mixed"])
         return ["update", cid, form, self.pairs(cid, 3)]
 
     def _ins_payload(self, cid, fail):
@@ -271,6 +272,11 @@ class HistGen:
         mech = self.rng.choice(self.MECHS)
         if self.rng.random() < self.p_restart:
             mech = "xpickle" + self.rng.choice("245")
+        if self.rng.random() < 0.15:
+            # the container carries instance attributes, as every module a
+            # loader returns does (.errors)
+            return ["copy", cid, mech, nid, self.rng.choice([
+                {"errors": []}, {"errors": [3, 7]}, {"note": "mine"}])]
         return ["copy", cid, mech, nid]
 
     p_restart = 0.04
